@@ -17,8 +17,9 @@ from vcheck import Machinery, pmap
 TOK_PLAIN = r"(?P<SPACE>\s+)|(?P<a>a)|(?P<b>b)|(?P<c>c)"
 # keywords / synonyms configuration: two regex groups map to token 'a', a WORD value to 'b'
 # the keywords are declared for a token name that exists only through the synonyms (three groups are called 'a')
-TOK_KW = r"(?P<SPACE>\s+)|(?P<X1>x)|(?P<X2>y)|(?P<W1>[k-w]+)"
-KW_SYN = {'X1': 'a', 'X2': 'a', 'W1': 'a'}
+# ... and a quoted word is a token of another kind (b) whose VALUE (the text between the quotes) may equal the value of an a
+TOK_KW = r"(?P<SPACE>\s+)|(?P<X1>x)|(?P<X2>y)|(?P<W1>[k-w]+)|\"(?P<Q1>[a-z]*)\""
+KW_SYN = {'X1': 'a', 'X2': 'a', 'W1': 'a', 'Q1': 'b'}
 KW_KEY = {('a', 'kw'): 'b', ('a', 'kww'): 'c'}
 
 FAMILIES = {
@@ -32,6 +33,10 @@ FAMILIES = {
     # left-recursion focused: three symbols, base alternatives (empty / 'a') and ONE sequence of 2..3 non-terminals
     # somewhere in the grammar, under every assignment of names to the roles
     'R3': (3, ['a'], 2, 3, 2, 0, 'nts'),
+    # wide common-prefix group: one symbol, up to 6 alternatives 'a' + (nothing | a | b | c | the symbol itself)
+    'W6': (1, ['a', 'b', 'c'], 6, 1, 3, 1),
+    # chain A -> B.. -> C..: each symbol uses later symbols only, as <<N>> or <<N, t>> (nullable heads of chains)
+    'H3': (3, ['a', 'b'], 2, 2, 3, 0, 'chain'),
 }
 
 
@@ -160,10 +165,10 @@ def render(toks, kw, salt=0):
         if t == 'a':
             lex.append(('x', 'y', 'mm')[(i + salt) % 3])
         elif t == 'b':
-            lex.append('kw')
+            lex.append(('kw', '"x"', '"mm"', '"y"')[(i + salt) % 4])
         else:
             lex.append('kww')
-    return ' '.join(lex), [{'n': t, 'v': l} for t, l in zip(toks, lex)]
+    return ' '.join(lex), [{'n': t, 'v': l.strip('"')} for t, l in zip(toks, lex)]      # value of a quoted word: without the quotes
 
 
 def all_inputs(terms, k):
@@ -349,6 +354,8 @@ def explore(ctx, want):
     fams = ['Q2', 'A1', 'P1', 'C3'] if ctx.quick else ['A2', 'A1', 'P1', 'C3', 'P2']
     if want == 'C03':
         fams = fams + ['R3']
+    if want == 'C02':
+        fams = fams + ['W6', 'H3']
     total_parses = 0
     ngram = 0
     nobs = 0
